@@ -48,6 +48,8 @@ type c13Stats struct {
 	sweptWorlds  int
 	sweepCases   int
 	tornSweeps   int
+	editSweeps   int
+	editCases    int
 	tinyInputs   int
 	matrixInputs int
 	maxStressTicks int64
@@ -208,6 +210,8 @@ func checkC13(r *Run) error {
 		"single_fault_sweeps": map[string]any{"worlds_swept": st.sweptWorlds, "cases": st.sweepCases,
 			"meaning": "for each swept world every recorded I/O call index x every applicable fault kind was executed once"},
 		"torn_prefix_sweeps": st.tornSweeps,
+		"token_edit_sweeps": map[string]any{"programs_swept": st.editSweeps, "cases": st.editCases,
+			"meaning": "for each swept corpus program, at EVERY token position: deletion, duplication, swap with the next token, substitution by a moving window of the vocabulary and of the file's own tokens (main or imported file)"},
 		"operand_matrix": map[string]any{"programs": st.matrixInputs, "exhaustive_over": "every expression slot of every statement form, builtin, return position (also nested in if/for/switch inside functions) x 35 operand kinds (void/single/multi-value calls, app calls, slices, nil, literals, undefined names, parenthesised variants) x placement at top level / inside a function, both targets"},
 		"tiny_input_enumeration": map[string]any{"inputs": st.tinyInputs, "exhaustive_over": "every single byte, every vocabulary token, every ordered pair of vocabulary tokens with and without a separating blank, every encoding mark x 12 short tails, every line opener (shebang, comment and string openers) x 7 endings (thorough: plus all triples over a 30-token vocabulary) as the whole main file"},
 	}
@@ -521,6 +525,36 @@ func c13Round(r *Run, rng *gen.Rng, st *c13Stats, corpus []string, roundSize, sw
 				pv.meta.Corrupt = "main-trailing-slash"
 			}
 			cases = append(cases, pv)
+		}
+	}
+	// systematic single-token edits of one valid corpus program per round (C13's quantifier:
+	// "all single- and double-token edits of valid programs"): every position, not a sample
+	if len(corpus) > 0 {
+		nv, nf, maxTok := 3, 3, 90
+		if r.Tier == "thorough" {
+			nv, nf, maxTok = 12, 10, 160
+		}
+		for tries := 0; tries < 12; tries++ {
+			src := corpus[rng.Intn(len(corpus))]
+			if n := gen.SigTokens(src); n < 4 || n > maxTok {
+				continue
+			}
+			voff := rng.Intn(len(gen.Vocab))
+			imported := rng.Chance(25)
+			st.editSweeps++
+			for _, ed := range gen.TokenEdits(src, voff, nv, nf) {
+				ew := &gen.GenWorld{Main: "main.tsh", Shape: "single", Closure: []string{"main.tsh"}}
+				if imported {
+					ew.Set("lib.tsh", []byte(ed.Src))
+					ew.Set("main.tsh", []byte("import l \"lib.tsh\"\nprint(1)\n"))
+					ew.Shape = "chain"
+				} else {
+					ew.Set("main.tsh", []byte(ed.Src))
+				}
+				cases = append(cases, mk(ew, "token-edit-sweep", ed.Desc))
+				st.editCases++
+			}
+			break
 		}
 	}
 	res, err := c13Exec(r, st, cases)
